@@ -566,6 +566,27 @@ def rule_kpm_wiring(rep: Report, repo: Repo):
         raise AnalysisError(R, "the returned solver closure was not found")
     outer = outer[0]
     env_o = env_at(outer, f, keep_params=False, opaque=OPQ)
+    from .sem import kwcalls as _kwcalls
+    msc = Scope(repo.trees[MOD], f)
+
+    class _Proj(ast.NodeTransformer):
+        """ComplementProjector(vecs=X, left_vecs=None) reads ComplementProjector(X)"""
+        def visit_Call(self, node):
+            self.generic_visit(node)
+            if call_name(node) == "ComplementProjector" and not any(isinstance(a_, ast.Starred) for a_ in node.args):
+                b_ = dict(zip(("vecs", "left_vecs"), node.args))
+                b_.update({k_.arg: k_.value for k_ in node.keywords if k_.arg})
+                if set(b_) <= {"vecs", "left_vecs"} and "vecs" in b_:
+                    args_ = [b_["vecs"]] + ([b_["left_vecs"]] if "left_vecs" in b_ and norm(b_["left_vecs"]) != "None" else [])
+                    return ast.Call(func=node.func, args=args_, keywords=[])
+            return node
+
+    def ct(x, env=None) -> str:
+        """one spelling for what is compared: resolved, keyword / positional arguments of known callees unified, comprehension
+        variables alpha-renamed"""
+        e_ = ast.parse(x, mode="eval").body if isinstance(x, str) else x
+        e_ = resolved(resolved(e_, env or {}), {})  # (the second pass alpha-renames comprehension variables that came in through env)
+        return norm(canon(_Proj().visit(_kwcalls(e_, msc))))
     AUX_ALTS = ("solver_options.get('auxiliary_vectors', np.zeros((h_0.shape[0], 0)))",)
     ext_alts = [f"(*subspace_eigenvectors, {a})" for a in AUX_ALTS]
     # the rescale unpacking: H', (a, b) = rescale(h_0, ...)
@@ -596,7 +617,7 @@ def rule_kpm_wiring(rep: Report, repo: Repo):
                         o_res = rtext(ast.parse(other, mode="eval").body, env_o)
                         m = _LEN_MINUS_1.match(o_res)
                         if m:
-                            seen.setdefault("last", set()).add(m.group(1))
+                            seen.setdefault("last", set()).add(ct(m.group(1)))
                             return last if isinstance(n.ops[0], ast.Eq) else not last
                 return None
             outs = [o for o in outcomes(outer.body, None, env={}, atom=atom, expand=False)]
@@ -611,15 +632,16 @@ def rule_kpm_wiring(rep: Report, repo: Repo):
                 else:
                     terms.append(e)
             flat(v)
-            seen[(yzero, last)] = sorted(rtext(t, env_o) for t in terms)
-    EIGS_ALTS = [f"[(Dagger(_v0) @ h_0 @ _v0).diagonal() for _v0 in {e}]" for e in ext_alts]
-    expl = [f"solve_sylvester_diagonal({eg}, {aux}, atol=solver_options.get('atol'))(Y, index)"
-            for eg in EIGS_ALTS for aux in [*AUX_ALTS, *[f"{e}[-1]" for e in ext_alts]]]
+            seen[(yzero, last)] = sorted(ct(t, env_o) for t in terms)
+    EIGS_RAW = [f"[(Dagger(_v0) @ h_0 @ _v0).diagonal() for _v0 in {e}]" for e in ext_alts]
+    EIGS_ALTS = [ct(x_) for x_ in EIGS_RAW]
+    expl = [ct(f"solve_sylvester_diagonal({eg}, {aux}, atol=solver_options.get('atol'))(Y, index)")
+            for eg in EIGS_RAW for aux in [*AUX_ALTS, *[f"{e}[-1]" for e in ext_alts]]]
     kpm_name = [d.name for d in inner]
     ok_zero = seen[(True, False)] == ["zero"] and seen[(True, True)] == ["zero"]
     ok_other = len(seen[(False, False)]) == 1 and seen[(False, False)][0] in expl
     t_last = seen[(False, True)]
-    ok_last = len(t_last) == 2 and any(t in expl for t in t_last) and any(t in [f"{k}(Y, index)" for k in kpm_name] for t in t_last)
+    ok_last = len(t_last) == 2 and any(t in expl for t in t_last) and any(t in [ct(f"{k}(Y, index)") for k in kpm_name] for t in t_last)
     rep.check(ok_zero and ok_other and ok_last, R,
               f"{MOD}::solve_sylvester_KPM implicit column block = KPM part + explicit auxiliary part; other blocks by the diagonal solver",
               f"Y zero -> {seen[(True, True)]}; last column -> {[t[:60] for t in t_last]}; other -> {[t[:60] for t in seen[(False, False)]]}", loc(outer))
@@ -665,12 +687,11 @@ def rule_kpm_wiring(rep: Report, repo: Repo):
     ht_names = set()
     if isinstance(g.iter, ast.Call) and call_name(g.iter) == "zip" and len(g.iter.args) == 2 and isinstance(g.target, ast.Tuple) \
             and isinstance(elt, ast.Call) and call_name(elt) == "greens_function" and len(elt.args) >= 3 and not g.ifs:
-        e_it, y_it = (norm(x) for x in g.iter.args)
+        e_it, y_it = (ct(x) for x in g.iter.args)
         tv = [norm(t) for t in g.target.elts]
-        er_alts = [f"[(_v2 - {B}) / {A} for _v2 in {eg}[:-1]][index[0]]" for eg in EIGS_ALTS] + \
-                  [f"[(_v0 - {B}) / {A} for _v0 in {eg}[:-1]][index[0]]" for eg in EIGS_ALTS]
+        er_alts = [ct(f"[(_v9 - {B}) / {A} for _v9 in {eg}[:-1]][index[0]]") for eg in EIGS_RAW]
         proj = [f"ComplementProjector(np.hstack({e}))" for e in ext_alts]
-        y_alts = [f"Y @ {p} / {A}" for p in proj]
+        y_alts = [ct(f"Y @ {p} / {A}") for p in proj]
         ok_e, ok_y = e_it in er_alts, y_it in y_alts
         ok = [norm(a) for a in elt.args[1:3]] == tv and isinstance(elt.args[0], ast.Name)
         detail = f"rows `{y_it[:160]}`, energies `{e_it[:160]}`"
@@ -1100,15 +1121,20 @@ def rule_solve_scalar(rep: Report, repo: Repo):
     rep.check(ok, R, "second_quantization::solve_scalar diagonal entries: solve half of the terms, complete with minus the adjoint (anti-Hermitian solution)",
               f"skipped: {sorted(k for k, r in results.items() if r == ('skip',))} (negative shift, diagonal); completion {comp}", loc(f))
 
-    # -- the matrix wrapper: run the element loops on a concrete 3 x 3 matrix -----------------------------------------
+    # -- the matrix wrapper: run the element loops on a concrete 4 x 4 matrix -----------------------------------------
     from .e2c import _const_eval
     from .e5 import _int_eval, _range_values
-    w = repo.find("second_quantization::solve_sylvester_2nd_quant", R)
+    w = repo.find_expanded("second_quantization::solve_sylvester_2nd_quant", R)  # element loops moved into helpers are seen through
     inner = [d for d in nested_defs(w) if d.name == "solve_sylvester"]
     if len(inner) != 1:
         raise AnalysisError(R, "solve_sylvester_2nd_quant: nested solver not found")
     inner = inner[0]
-    NROW = 3
+    # a statement-level call that is not seen through may store elements too: then the table below would be incomplete
+    for n_ in ast.walk(inner):
+        if isinstance(n_, ast.Expr) and isinstance(n_.value, ast.Call) and call_name(n_.value) not in ("print",) \
+                and any(norm(a_) in ("result", "Y") or isinstance(a_, ast.Name) for a_ in n_.value.args):
+            raise AnalysisError(R, f"solve_sylvester_2nd_quant: `{norm(n_)[:60]}` may store elements of the solution: not understood")
+    NROW = 4
     grid = {"Y.rows": NROW, "Y.cols": NROW, "Y.shape[0]": NROW, "Y.shape[1]": NROW}
     names = {}
     table = {}
@@ -1137,25 +1163,26 @@ def rule_solve_scalar(rep: Report, repo: Repo):
         for ev in top.events:
             if not isinstance(ev, ast.For):
                 continue
-            if not (isinstance(ev.target, ast.Name) and len(ev.body) == 1 and isinstance(ev.body[0], ast.For) and isinstance(ev.body[0].target, ast.Name)):
-                raise AnalysisError(R, f"solve_sylvester_2nd_quant: element loop `for {norm(ev.target)} in {norm(ev.iter)}` not understood")
-            I, J = ev.target.id, ev.body[0].target.id
-            rows = _range_values(ev.iter, grid)
-            if rows is None:
-                raise AnalysisError(R, f"solve_sylvester_2nd_quant: row range `{norm(ev.iter)}` not closed")
-            env_in = {k: v for k, v in env_top.items() if k not in (I, J)}
-            for i in rows:
-                cols = _range_values(ev.body[0].iter, {**grid, I: i})
-                if cols is None:
-                    raise AnalysisError(R, f"solve_sylvester_2nd_quant: column range `{norm(ev.body[0].iter)}` not closed")
-                for j in cols:
-                    sub = {**grid, I: i, J: j}
+            from .e5 import loop_points
+            from .resolve import resolved as _resolved_expr
+
+            def with_resolved_headers(loop_):
+                """the loop with the locals in its range expressions replaced by what they were assigned (rows = Y.rows, ...)"""
+                cp = ast.For(target=loop_.target, iter=_resolved_expr(loop_.iter, env_top), orelse=[], type_comment=None,
+                             body=[with_resolved_headers(b_) if isinstance(b_, ast.For) and len(loop_.body) == 1 else b_ for b_ in loop_.body])
+                return ast.copy_location(cp, loop_)
+            points = loop_points(with_resolved_headers(ev), grid, R, "solve_sylvester_2nd_quant")
+            bound = sorted({k for b, _ in points for k in b})
+            env_in = {k: v for k, v in env_top.items() if k not in bound}
+            if True:
+                for binding, leaf in points:
+                    sub = {**grid, **binding}
                     def atom_in(n, sub=sub):
                         b_ = blk(n)
                         if b_ is not None:
                             return b_
                         return _const_eval(n, sub)
-                    outs = outcomes(ev.body[0].body, None, env=env_in, atom=atom_in, expand=False)
+                    outs = outcomes(leaf, None, env=env_in, atom=atom_in, expand=False)
                     if len(outs) != 1:
                         raise AnalysisError(R, "solve_sylvester_2nd_quant: element loop body has an undecided condition")
                     for kind, st, rv in outs[0].seq:
@@ -1164,13 +1191,19 @@ def rule_solve_scalar(rep: Report, repo: Repo):
                             a_, b_ = (_int_eval(x, sub) for x in st.targets[0].slice.elts)
                             if a_ is None or b_ is None:
                                 raise AnalysisError(R, "solve_sylvester_2nd_quant: store position not closed")
-                            ren = lambda t: t.replace(I, "i").replace(J, "j")
                             if isinstance(rv, ast.Call) and call_name(rv) == "solve_scalar":
                                 kw = {k.arg: k.value for k in rv.keywords}
                                 dg = eval_bool(kw["diagonal"], atom_in) if "diagonal" in kw else False
-                                args = [norm(x) for x in rv.args]
-                                per_elem.setdefault((a_, b_), []).append(("solve", (i, j), tuple(ren(x) for x in args), dg))
-                                names.setdefault("eigs", set()).add((args[1].split("[")[0], args[2].split("[")[0]) if len(args) == 3 else ("?", "?"))
+                                # where the right-hand side and the two energies are read, as integers on the grid
+                                reads = []
+                                for x in rv.args:
+                                    if isinstance(x, ast.Subscript):
+                                        sl = x.slice.elts if isinstance(x.slice, ast.Tuple) else [x.slice]
+                                        reads.append((norm(x.value), tuple(_int_eval(e_, sub) for e_ in sl)))
+                                    else:
+                                        reads.append((norm(x), None))
+                                per_elem.setdefault((a_, b_), []).append(("solve", reads, dg))
+                                names.setdefault("eigs", set()).add((reads[1][0], reads[2][0]) if len(reads) == 3 else ("?", "?"))
                             else:
                                 src = None
                                 if isinstance(rv, ast.UnaryOp) and isinstance(rv.op, ast.USub) and isinstance(rv.operand, ast.Call) \
@@ -1181,6 +1214,7 @@ def rule_solve_scalar(rep: Report, repo: Repo):
                                 per_elem.setdefault((a_, b_), []).append(("fill", src, norm(rv)))
         table[dblock] = per_elem
     ok_solve, ok_fill = True, True
+    bad_fill = []
     detail = {}
     for dblock, per_elem in table.items():
         for a_ in range(NROW):
@@ -1193,9 +1227,9 @@ def rule_solve_scalar(rep: Report, repo: Repo):
                 want_solve = (not dblock) or a_ >= b_
                 want_fill = dblock and a_ < b_
                 if want_solve:
-                    if not (len(solves) == 1 and solves[0][1] == (a_, b_) and len(solves[0][2]) == 3 and solves[0][2][0] == "Y[i, j]"
-                            and solves[0][2][1].endswith("[i]") and solves[0][2][2].endswith("[j]")
-                            and solves[0][3] == (dblock and a_ == b_) and not fills):
+                    if not (len(solves) == 1 and len(solves[0][1]) == 3 and solves[0][1][0] == ("Y", (a_, b_))
+                            and solves[0][1][1][1] == (a_,) and solves[0][1][2][1] == (b_,)
+                            and solves[0][2] == (dblock and a_ == b_) and not fills):
                         ok_solve = False
                 elif solves:
                     ok_solve = False
@@ -1204,13 +1238,15 @@ def rule_solve_scalar(rep: Report, repo: Repo):
                     # or after the source element in the same sweep)
                     if not (len(fills) == 1 and fills[0][1] == (b_, a_)):
                         ok_fill = False
+                        bad_fill.append(f"({a_}, {b_}) " + ("is never filled" if not fills else f"is filled from {[x[1] for x in fills]}"))
                 elif fills:
                     ok_fill = False
+                    bad_fill.append(f"({a_}, {b_}) of {'a diagonal' if dblock else 'an off-diagonal'} block is overwritten by a fill from {[x[1] for x in fills]}")
     rep.check(ok_solve, R, "second_quantization::solve_sylvester_2nd_quant element (i, j) is solved with H_ii = eigs_A[i], H_jj = eigs_B[j]",
               f"(diagonal block, i ? j) -> stores {detail}; solved entries: all of an off-diagonal block, i >= j of a diagonal block, "
               "diagonal=True exactly on the diagonal of a diagonal block", loc(inner))
     rep.check(ok_fill, R, "second_quantization::solve_sylvester_2nd_quant upper triangle of a diagonal block = minus the adjoint of the computed lower triangle",
-              "", loc(inner))
+              (f"on a {NROW} x {NROW} matrix: element " + "; ".join(bad_fill[:4])) if bad_fill else f"all {NROW * (NROW - 1) // 2} elements above the diagonal of a {NROW} x {NROW} matrix", loc(inner))
     e_names = names.get("eigs", set())
     if len(e_names) != 1:
         raise AnalysisError(R, "solve_sylvester_2nd_quant: energies passed to solve_scalar not understood")
